@@ -633,8 +633,10 @@ class C11(Check):
         sym = {}
         for n in range(80 if self.tier == "quick" else 800):
             assort, init = rng.random() < 0.5, rng.choice("rrf")
-            rc = random_run(rng, variants=[(False, assort, init)], prior=rng.choice([0.0, 7.5, -3.0]), maxit=rng.choice([1, 4, 11, 25]),
-                            heavy=(True if rng.random() < 0.25 else None))
+            heavy = rng.random() < 0.25   # thousands of parallel edges: few sweeps, the cost is per edge
+            rc = random_run(rng, variants=[(False, assort, init)], prior=rng.choice([0.0, 7.5, -3.0]),
+                            maxit=rng.choice([1, 3] if heavy else [1, 4, 11, 25]), heavy=(True if heavy else None),
+                            **({"r": 1} if heavy else {}))
             # reverse a subset of records, keeping the order of first appearance
             seen = set()
             rev = []
